@@ -7,6 +7,7 @@ import json
 from vt import core, explore
 from vt.env import aeadspy
 from vt.env.iprig import IpRig, std_handler
+from vt.ref import crypto as C
 from vt.ref import ipacc
 
 META = dict(
@@ -119,7 +120,7 @@ class IpH(explore.Harness):
                     m.append(a)
             elif a == "odd-frame":
                 # an authentic frame whose plaintext the HTTP layer cannot take (a response nobody waits for, an unknown start line)
-                if cur and not self.queue.get(cur.cid) and not self.part.get(cur.cid) and getattr(self, "n_odd", 0) < 2:
+                if cur and not self.queue.get(cur.cid) and not self.part.get(cur.cid) and getattr(self, "n_odd", 0) < 3:
                     m.append(a)
             elif a == "replay-odd":
                 if cur and getattr(self, "odd_frames", None):
@@ -135,8 +136,14 @@ class IpH(explore.Harness):
         elif label == "odd-frame":
             self.n_odd = getattr(self, "n_odd", 0) + 1
             sess = cur.session
-            plain = (b"BOGUS/9.9 200 OK\r\n\r\n", ipacc.http_response(200, b"{}"))[self.n_odd % 2]
-            g = sess.framer.seal_frames(plain)[0]
+            plain = (b"", ipacc.http_response(200, b"{}"), b"BOGUS/9.9 200 OK\r\n\r\n")[(self.n_odd - 1) % 3]
+            if plain:
+                g = sess.framer.seal_frames(plain)[0]
+            else:
+                # an authentic block of zero plaintext bytes (length prefix 0 and a tag: legal framing, a keep-alive of sorts)
+                fr = sess.framer
+                g = b"\x00\x00" + C.seal(fr.a2c_key, C.nonce_ctr(fr.a2c), b"", b"\x00\x00")
+                fr.a2c += 1
             self.genuine[aeadspy.digest(g[2:])] = (cur.cid, sess.framer.a2c - 1)
             self.odd_frames = getattr(self, "odd_frames", []) + [g]
             cur.send(g)
